@@ -823,7 +823,7 @@ def semiToks (semi' : Pos) (bg : Bool) : List TokPos :=
 theorem semi_glue (p : P) (semi semi' : Pos) (bg : Bool) (K K' : List (TK × Nat))
     (hd : (semiToks semi' bg).map tinfo ++ K' = semiD p semi bg ++ K)
     (hs : (NoSA K ∧ NoSA K') ∨ ((bg = false ∧ semi.valid = false) ∧ semi'.valid = false)) :
-    TrSemi p semi bg semi' ∧ K' = K := by
+    TrSemiS p semi bg semi' ∧ K' = K := by
   rcases hs with ⟨hK, hK'⟩ | ⟨⟨hb, hv⟩, hv'⟩
   · unfold semiD at hd
     unfold semiToks at hd
@@ -1010,7 +1010,7 @@ theorem glue_stmt : ∀ (s s' : Stmt) (p : P) (ctx : Option Pos) (K K' : List (T
     obtain ⟨ts, hk⟩ := semi_glue _ semi semi' bg' K K' hd3 hs'
     refine ⟨?_, hk⟩
     simp only [TrStmt]
-    exact ⟨trivial, trivial, hpos, tc, ts⟩
+    exact ⟨trivial, trivial, hpos, tc, ts.weak⟩
 theorem glue_cmd : ∀ (c c' : Cmd) (p : P) (ctxc : Option Pos) (K K' : List (TK × Nat)),
     c.wf = true → c.lin = true → p.o.singleLine = false → OKc c' → c'.norm = c.norm → c'.pk ctxc →
     (∀ bp, ctxc = some bp → bp.line = p.cur) →
